@@ -543,7 +543,7 @@ func c12Builder(w *mon.W, idx int) {
 	if pre > 0 {
 		w.Bucket("builder/presized")
 	}
-	if idx%997 == 11 {
+	if idx%997 == 11 && w.Cfg.Base() != "386" { // (16 workers x 256 MiB of capacity do not fit a 32-bit address space)
 		// the size hint is an int32: its largest values (the builder is then used like any other; the capacity is never touched)
 		pre = int32(r.Pick(1<<31-1, 1<<31-2, 1<<31-63, 1<<31-64, 1<<31-65, 1<<30))
 		w.Bucket("builder/hint-near-maxint32")
